@@ -463,7 +463,12 @@ class _Image:
                 body += secs[r]['data']
         body += gaps[len(file_order)] if len(gaps) > len(file_order) else b''
         self.body = body
-        self.cut = cut
+        # a cut never reaches the section header table (headers reach the model decoded): at most the trailing
+        # gap and the last section's content go
+        last = file_order[-1]
+        room = len(gaps[len(file_order)] if len(gaps) > len(file_order) else b'') + \
+            (len(secs[last]['data']) if last != 'SHDRS' else 0)
+        self.cut = min(cut, room)
 
     def header_reqs(self):
         le, is64 = self.le, self.is64
@@ -585,6 +590,16 @@ def _impl_versym(img, n):
 
 
 # ------------------------------------------------------------------ evaluation
+def _replace_invalid_utf8(x):
+    """the library decodes names with errors='replace'; on garbage walks (out-of-domain only) the model's raw name
+    bytes are passed through the same replacement before the comparison (identity on valid UTF-8)"""
+    if isinstance(x, (bytes, bytearray)):
+        return bytes(x).decode('utf-8', errors='replace').encode('utf-8')
+    if isinstance(x, (list, tuple)):
+        return [_replace_invalid_utf8(y) for y in x]
+    return x
+
+
 def _first_diff(names, a, b):
     for nm, x, y in zip(names, a, b):
         if x != y:
@@ -871,6 +886,8 @@ def _evaluate(ctx, cases):
         ctx.bump('in_domain', kind + ':' + str(in_domain))
         if not malformed and not in_domain:
             ctx.bump('generator_left_domain', kind)
+        if not in_domain:
+            model = _replace_invalid_utf8(model)
         impl_c, spec_c = sx.canon(impl), sx.canon(spec)
         comp = _first_diff(names, impl_c, spec_c if in_domain else sx.canon(model))
         ctx.record(kind, c, impl=impl, spec=spec if in_domain else model, model=model, in_domain=in_domain,
